@@ -24,6 +24,7 @@ of hash containers) cannot be exhibited by a model; it is covered by `lint_clean
 check (harness/c17.cpp).  Integers are natural numbers (no wrap-around of `_time`, `sRandCount`).
 -/
 import YaclibModel.Proofs.FiberSchedShift
+import YaclibModel.Proofs.FiberSchedOrder
 import YaclibModel.Extracted.Kernels
 import YaclibModel.Model.Skeletons
 
@@ -159,6 +160,26 @@ theorem poll_total {E F : Type} (en : Engine E) (cfg : Cfg) (rc : Nat) (e : E) (
   refine ⟨l[i], l.eraseIdx i, ?_, List.getElem_mem hlt, ?_⟩
   · simp [List.getElem?_eq_getElem hlt]
   · rw [List.length_eraseIdx]; simp [hlt]; omega
+
+/-! fibers with equal virtual wake-up times: the order is insertion order, nothing else -/
+
+/-- `WakeUpNeeded` moves the due buckets to the run queue in key order, each bucket in push order -/
+theorem wake_up_in_key_then_push_order {F : Type} (t : Nat) (sl : List (Nat × List F)) :
+    (wakeUp t sl).1 = ((sl.takeWhile (fun kb => decide (kb.1 ≤ t))).map (·.2)).flatten :=
+  wakeUp_order t sl
+
+/-- two fibers that go to sleep until the same virtual time (`sleep_until` with a common deadline, periodic workers on a
+    common grid), `g` after `f`, in any sorted sleep map: the bucket of that time is `… ++ [f, g]` — they are woken in the
+    order in which they went to sleep (and `sleepInsert` keeps the map sorted: `sleepInsert_spec`) -/
+theorem wake_up_ties_in_insertion_order {F : Type} (ns : Nat) (f g : F) (sl : List (Nat × List F)) (hs : SortedKeys sl) :
+    (sleepInsert ns g (sleepInsert ns f sl)).lookup ns = some ((sl.lookup ns).getD [] ++ [f, g]) :=
+  equal_wake_up_time_is_insertion_order ns f g sl hs
+
+/-- … and every reachable sleep map is sorted (one bucket per wake-up time, ascending), so the above holds in every
+    reachable state -/
+theorem sleep_map_sorted {E F Q : Type} [DecidableEq F] [DecidableEq Q] (en : Engine E) (cfg : Cfg) (seed c0 : Nat)
+    {s : St E F Q} (h : Reachable en cfg seed c0 s) : SortedKeys s.sleep :=
+  sorted_reachable en cfg seed c0 h
 
 /-- the two branches of the index law disagree about "reversed": in range `ind` counts from the back, out of range the
     wrapped index counts from the front and is then negated — `ind = n` reversed is the front element, `ind = n + 1`
